@@ -43,6 +43,10 @@ ACTS = {
     "in3": ("in", 3, 0), "in4": ("in", 4, 0), "o2": ("out", 2, U.DATA0, "b"), "o4": ("out", 4, U.DATA1, "b"), "ping2": ("ping", 2),
     # traffic that belongs to no endpoint of this device
     "sof": ("sof",), "in-other": ("other", "in"), "out-other": ("other", "out"),
+    # shared full-speed bus (hubs repeat downstream packets to every port): the host's IN transaction with ANOTHER device, as seen
+    # downstream = IN token for the other address, silence while that device answers upstream, the host's ACK.  Only in the
+    # "shared-bus" configurations, whose rules carry the prefix "shared-bus:" (the statement's quantifier speaks of one device).
+    "ack-other": ("other", "in+ack"),
 }
 
 
@@ -53,32 +57,37 @@ def owner_of(a):
 
 
 def configs(tier):
-    t = lambda gap, pace, ready, cons, depth, acts: dict(gap=gap, pace=pace, ready=ready, cons=cons, depth=depth, acts=acts)
+    t = lambda gap, pace, ready, cons, depth, acts: dict(gap=gap, pace=pace, ready=ready, cons=cons, depth=depth, acts=acts,
+                                                       shared_bus="ack-other" in acts)
     q = tier == "quick"
     d = (lambda a, b: a) if q else (lambda a, b: b)
     cs = [
         # the two IN endpoints against each other and against OUT traffic on the shared number 1
-        t(1, 1, 1, "eager", d(8, 11), ["in1+", "in1-", "in2+", "in2-", "o1d0b", "o1d1b", "in3", "sof"]),
-        t(1, 1, 1, "eager", d(8, 11), ["in1+", "in1-", "o1d0b", "o1d1f", "o3d0b", "o3d1f", "o2", "in-other"]),
+        t(1, 1, 1, "eager", d(8, 15), ["in1+", "in1-", "in2+", "in2-", "o1d0b", "o1d1b", "in3", "sof"]),
+        t(1, 1, 1, "eager", d(8, 15), ["in1+", "in1-", "o1d0b", "o1d1f", "o3d0b", "o3d1f", "o2", "in-other"]),
         # the two OUT endpoints against each other (toggles, payload sizes, corrupted and empty packets)
-        t(1, 1, 1, "eager", d(8, 11), ["o1d0b", "o1d1b", "o1d0f", "o3d0b", "o3d1b", "o3d0f", "o4", "out-other"]),
-        t(2, 1, 2, "eager", d(8, 11), ["o1d0b", "o1d0x", "o1d0z", "o3d0b", "o3d0x", "o3d1z", "in2+", "o2"]),
+        t(1, 1, 1, "eager", d(8, 15), ["o1d0b", "o1d1b", "o1d0f", "o3d0b", "o3d1b", "o3d0f", "o4", "out-other"]),
+        t(2, 1, 2, "eager", d(8, 15), ["o1d0b", "o1d0x", "o1d0z", "o3d0b", "o3d0x", "o3d1z", "in2+", "o2"]),
         # stalled consumers: NAKs, full FIFOs, draining
-        t(1, 1, 1, "stalled", d(8, 11), ["o1d0f", "o1d1f", "o3d0f", "o3d1f", "drain1", "drain3", "in1+"]),
-        t(1, 1, 1, "stalled", d(8, 11), ["o1d0b", "o1d1b", "o3d0b", "drain1", "ping1", "ping3", "ping2", "in2-"]),
+        t(1, 1, 1, "stalled", d(8, 15), ["o1d0f", "o1d1f", "o3d0f", "o3d1f", "drain1", "drain3", "in1+"]),
+        t(1, 1, 1, "stalled", d(8, 15), ["o1d0b", "o1d1b", "o3d0b", "drain1", "ping1", "ping3", "ping2", "in2-"]),
         # everything IN + signal + absent endpoints
-        t(3, 1, 1, "eager", d(7, 10), ["in1+", "in1-", "in2+", "in2-", "in3", "in4", "o2", "o3d0b", "sof"]),
+        t(3, 1, 1, "eager", d(7, 12), ["in1+", "in1-", "in2+", "in2-", "in3", "in4", "o2", "o3d0b", "sof"]),
         # realistic byte pacing (one byte per 8 cycles of the 12 MHz full-speed UTMI clock)
-        t(2, 8, 8, "eager", d(6, 8), ["in1+", "in1-", "in2+", "o1d0b", "o1d1b", "o3d0b", "in4", "sof"]),
-        t(1, 2, 3, "eager", d(7, 10), ["in1+", "in2+", "in2-", "o1d0f", "o3d1b", "o3d0b", "out-other", "in-other"]),
+        t(2, 8, 8, "eager", d(6, 9), ["in1+", "in1-", "in2+", "o1d0b", "o1d1b", "o3d0b", "in4", "sof"]),
+        t(1, 2, 3, "eager", d(7, 12), ["in1+", "in2+", "in2-", "o1d0f", "o3d1b", "o3d0b", "out-other", "in-other"]),
+        # shared bus: the host also acknowledges IN data of another device
+        t(1, 1, 1, "eager", d(7, 12), ["in1+", "in1-", "in2+", "in2-", "o1d0b", "o3d0b", "ack-other", "in-other"]),
+        t(2, 8, 8, "eager", d(5, 7), ["in1+", "in1-", "in2+", "in2-", "o1d1b", "ack-other", "sof"]),
     ]
     if not q:
         cs += [
-            t(1, 1, 1, "eager", 6, ["in1+", "in1-", "in2+", "in2-", "o1d0b", "o1d1b", "o1d0f", "o3d0b", "o3d1b", "o3d0f", "in3", "o2", "sof"]),
-            t(4, 1, 2, "eager", 6, ["in1+", "in1-", "in2+", "in2-", "o1d0b", "o1d0x", "o3d1b", "o3d0x", "in4", "o4", "in-other", "out-other"]),
-            t(1, 1, 1, "stalled", 6, ["in1+", "in2+", "o1d0f", "o1d1f", "o1d0b", "o3d0f", "o3d1f", "drain1", "drain3", "ping1", "ping3", "ping2"]),
-            t(2, 8, 1, "stalled", 6, ["o1d0f", "o1d1f", "o3d0f", "o3d1b", "drain1", "drain3", "in1+", "in1-"]),
-            t(7, 3, 4, "eager", 6, ["in1+", "in1-", "in2-", "o1d1b", "o1d0z", "o3d0b", "o3d1z", "in3", "sof"]),
+            t(1, 1, 1, "eager", 8, ["in1+", "in1-", "in2+", "in2-", "o1d0b", "o1d1b", "o1d0f", "o3d0b", "o3d1b", "o3d0f", "in3", "o2", "sof"]),
+            t(4, 1, 2, "eager", 8, ["in1+", "in1-", "in2+", "in2-", "o1d0b", "o1d0x", "o3d1b", "o3d0x", "in4", "o4", "in-other", "out-other"]),
+            t(1, 1, 1, "stalled", 8, ["in1+", "in2+", "o1d0f", "o1d1f", "o1d0b", "o3d0f", "o3d1f", "drain1", "drain3", "ping1", "ping3", "ping2"]),
+            t(2, 8, 1, "stalled", 8, ["o1d0f", "o1d1f", "o3d0f", "o3d1b", "drain1", "drain3", "in1+", "in1-"]),
+            t(7, 3, 4, "eager", 10, ["in1+", "in1-", "in2-", "o1d1b", "o1d0z", "o3d0b", "o3d1z", "in3", "sof"]),
+            t(1, 1, 2, "eager", 10, ["in1+", "in1-", "in2+", "in2-", "o1d0b", "o1d1b", "o3d0b", "ack-other", "in-other", "out-other", "sof"]),
         ]
     return cs
 
@@ -123,7 +132,10 @@ class IsolationSpec(Spec):
             "(or, in the 'stalled' configurations, never ready except in explicit drain actions); the same environments run in the shadows",
             "shadow devices start from the state reached 16 idle cycles after reset (IN buffers filled)",
             "PING tokens are sent although the link is full speed (the statement names OUT/PING; the endpoint answers PING at any speed)",
-            "traffic for another device address is limited to tokens and host data packets (handshakes the host sends to other devices are not modelled)"]
+            "traffic for another device address is limited to tokens and host data packets" + (
+                "; shared-bus configuration: additionally the host's ACK that ends an IN transaction with another device (full-speed hubs repeat "
+                "downstream packets to every port) - rules found here carry the prefix 'shared-bus:'" if self.cfg["shared_bus"] else
+                " (handshakes the host sends to other devices only occur in the shared-bus configurations)")]
 
     # env = (script index of the explored device's producer, ((shadow state, shadow script index) per endpoint in EPS order))
     def prologue(self, cur):
@@ -143,7 +155,7 @@ class IsolationSpec(Spec):
         if self.eager and any(x.startswith("o3") and x[-1] in "bf" for x in n): g += ["out3:delivery-compared"]
         if not self.eager: g += ["out:nak-compared"]
         if n & {"in3", "in4", "o2", "o4", "ping2"}: g += ["absent-endpoint-silent"]
-        if n & {"sof", "in-other", "out-other"}: g += ["neutral-traffic"]
+        if n & {"sof", "in-other", "out-other", "ack-other"}: g += ["neutral-traffic"]
         return g
 
     # ---- one transaction on one cursor.  Returns (transcript, new script index, beats per OUT stream)
@@ -208,6 +220,11 @@ class IsolationSpec(Spec):
         if k == "other":
             if a[1] == "in":
                 host.send(cur, U.token(U.IN, 9, 1), False)
+            elif a[1] == "in+ack":
+                host.send(cur, U.token(U.IN, 9, 1), False)
+                host.idle(cur, 6)                    # the other device's data packet travels upstream only
+                host._cyc(cur, line_state=K)
+                host.send(cur, U.handshake(U.ACK), False)
             else:
                 host.send(cur, U.token(U.OUT, 9, 1), False)
                 host.send(cur, U.data_packet(U.DATA0, (0x99,)), False)
@@ -223,6 +240,13 @@ class IsolationSpec(Spec):
         return "malformed"
 
     def apply(self, cur, env, a):
+        try:
+            return self._apply(cur, env, a)
+        except Violation as v:
+            if self.cfg["shared_bus"]: raise Violation("shared-bus:" + v.rule, v.detail)
+            raise
+
+    def _apply(self, cur, env, a):
         midx, shadows = env
         own = owner_of(a)
         resp, midx2, beats = self._run(cur, midx, a)
@@ -250,7 +274,7 @@ class IsolationSpec(Spec):
             if ka != kb: what = "response-kind"
             elif ka == "data" and resp[0] != sresp[0]: what = "data-toggle"
             else: what = "payload"
-            raise Violation(f"projection:{own}:{what}-differs-from-own-traffic-only", dict(detail, interleaved=ka, alone=kb))
+            raise Violation(f"projection:{own}:{what}-differs-from-own-traffic-only", dict(detail, kind_interleaved=ka, kind_alone=kb))
         if own.startswith("out"):
             ep = int(own[3])
             if beats[ep] != sbeats[ep]:
